@@ -11,6 +11,7 @@ from ..spec import hap
 from . import _pairing as pp
 from ._pairing import attr, call, const, glob, hkdf, reply, sub
 from .c01 import _norm_ctor, _sub_tlv_ok, driver_check
+from .c02 import session_key_chain
 
 PROPERTY = "C03"
 EXPLANATION = (
@@ -42,6 +43,11 @@ def run(ctx: Context) -> None:
         _g2(ctx)
     if ck.rule("C03.T1", "M1 / M3 / M5 requests"):
         _t1(ctx)
+    if ck.rule("C03.K1", "the key M3's proof and M5's seal are made from is the specification's K = H(PAD384(S))"):
+        # T1 compares the M3/M5 requests with `get_session_key_bytes()` taken as given; what that helper returns is C02's
+        # subject, and the three obligations of C02.T2 about it are run here under this id: with any other K a conformant
+        # accessory rejects the controller's own exchange message (positive clause of the property)
+        session_key_chain(ctx, "C03.K1")
     if ck.rule("C03.T2", "M6 verification"):
         _t2(ctx)
     if ck.rule("C03.T3", "the returned record is the authenticated one"):
@@ -420,6 +426,8 @@ TWIN_FILES = [
 ]
 _PF = "aiohomekit/protocol/__init__.py"
 VARIANTS = [
+    {"name": "K hashed over the unpadded S (leading-zero sessions differ from a conformant accessory)", "file": "aiohomekit/crypto/srp.py", "old": "        return pad_left(Srp.to_byte_array(self.get_shared_secret()), HK_KEY_LENGTH)", "new": "        return bytes(Srp.to_byte_array(self.get_shared_secret()))", "expect": "C03.K1"},
+    {"name": "session key cached from the raw S bytes", "file": "aiohomekit/crypto/srp.py", "old": "self._session_key = self.digest(self.get_shared_secret_bytes())", "new": "self._session_key = self.get_shared_secret_bytes()", "expect": "C03.K1"},
     {"name": "SRP proof check deleted", "file": _PF, "old": "    if not srp_client.verify_servers_proof_bytes(response_tlv[TLV.kTLVType_Proof]):\n        raise AuthenticationError(\"Step #5: wrong proof!\")\n", "new": "", "expect": "C03.G2"},
     {"name": "SRP proof check inverted", "file": _PF, "old": "    if not srp_client.verify_servers_proof_bytes(response_tlv[TLV.kTLVType_Proof]):", "new": "    if srp_client.verify_servers_proof_bytes(response_tlv[TLV.kTLVType_Proof]):", "expect": "C03.G2"},
     {"name": "M6 decrypt failure ignored", "file": _PF, "old": "    except DecryptionError:\n        raise IllegalData(\"step 7\")", "new": "    except DecryptionError:\n        decrypted_data = b\"\"", "expect": "C03.G2"},
